@@ -456,6 +456,31 @@ def decide(props, a, seed, workdir, t0):
         vr = run_verus(ppath, os.path.dirname(ppath), None, 8)
         fails = classify(vr, maps, image_lines, lookup)
         mark_frontend(vr, fails)
+    # ---- Kani twins (second opinion, DESIGN 2.6 step 2b): Verus failed an obligation of a small fixed-layout function for
+    # which a COMPLETE Kani harness on the real crate exists (generated from the specification table).  If every twin of
+    # that function succeeds, the obligation is discharged by Kani and the Verus failure is a proof-robustness warning
+    # (typical cause: a bit-level rewrite the SMT encoding cannot see through); if a twin fails, the violation stands.
+    twin_notes = []
+    if not a.no_kani:
+        failing_fns = sorted({f['fn'] for f in fails if f['kind'] == 'verification' and f['fn'] and not f.get('unverified')})
+        ths = kani_run.twin_harnesses(failing_fns)
+        if ths:
+            tr = kani_run.run(ths, REPO, workdir, a.tier)
+            by_fn = {}
+            for h in tr['harnesses']:
+                for k in h.get('twin_of', []):
+                    by_fn.setdefault(k, []).append(h)
+            discharged = {k for k, hs in by_fn.items() if k in failing_fns and hs and all(h['status'] == 'SUCCESSFUL' for h in hs)}
+            for k in sorted(discharged):
+                n = len([f for f in fails if f['fn'] == k and f['kind'] == 'verification'])
+                twin_notes.append('%s: %d Verus failure(s) discharged by the complete Kani twin(s) %s' % (k, n, ', '.join(h['name'] for h in by_fn[k])))
+            fails = [f for f in fails if not (f['fn'] in discharged and f['kind'] == 'verification' and not f.get('unverified'))]
+            for h in tr['harnesses']:
+                h['props'] = []
+                kr['harnesses'].append(h)
+            for k, hs in by_fn.items():
+                if k in failing_fns and k not in discharged:
+                    twin_notes.append('%s: Kani twin(s) %s' % (k, ', '.join('%s=%s' % (h['name'], h['status']) for h in hs)))
     NEW_FN_CALLERS.clear()
     NEW_FN_CALLERS.update(maps.get('new_functions', {}))
     for k in maps.get('forced_external', []):
@@ -523,7 +548,7 @@ def decide(props, a, seed, workdir, t0):
             fb[f['function']] = f
             smt_total += f.get('time-micros', f.get('time', 0)) / 1e6 if 'time-micros' in f else f.get('time', 0) / 1e3
     # ---- 4. canary: every contracted function must FAIL `ensures false` -------------------------------
-    canary_info = {'checked': 0, 'failed_as_expected': 0, 'vacuous': [], 'frame_files': frame_files, 'frame_hits': frame_hits,
+    canary_info = {'checked': 0, 'failed_as_expected': 0, 'vacuous': [], 'frame_files': frame_files, 'frame_hits': frame_hits, 'twin_notes': twin_notes,
                    'exec_fns_verified': None, 'rejected_msgs': rejected_msgs}
     if cr is not None and cr['json'] is not None:
         cf_fails = classify(cr, cmaps, cimage.split('\n'), clookup)
@@ -808,7 +833,7 @@ def decide_one(p, a, seed, t0, vr, cr, seeds, kr, fails, maps, image, lookup, co
                    'vacuous_for_this_property': vac},
         'verus': {'verified': vr['json']['verification-results'].get('verified'), 'errors': vr['json']['verification-results'].get('errors'),
                   'wall_s': round(vr['wall'], 2), 'smt_time_s': round(smt_total, 2)},
-        'proof_stability_warnings': unstable[:20],
+        'proof_stability_warnings': unstable[:20] + canary_info.get('twin_notes', []),
         'witness_search': search_info or {'ran': bool(candidates or violations), 'note': 'bounded, deterministic; used to attach failing inputs and to decide secondary attributions; never counted as an obligation'},
         'lost_anchors': maps.get('lost_anchors', {}),
         'explanation': 'Each obligation is a labelled contract clause, loop invariant or lemma of the crate image (real function bodies of /repo/src, '
